@@ -32,7 +32,9 @@ POOL = ['Feedback', 'FeedbackResponse', 'explain', 'gently', 'compliment', 'set_
 GEN = ('GenParent', 'GenChild', 'GenOther', 'GenConst', 'GenEq')
 TEMPLATES = ['plain text', 'k={k}', 'k={k} unit={unit}', 'n={n} k={k}', '{k:name}', 'see {k:python_value} and {n:filename}', '{k!r}',
              '{k:frame}|{n:line}', '{k:python_expression}{k:output}', '{k:traceback}', '{k:inputs}', '{k:exception}',
-             '{k:python_code}', '{{literal}} {k}', '{missing}', '{k:name} {missing:name}']
+             '{k:python_code}', '{{literal}} {k}', '{missing}', '{k:name} {missing:name}',
+             # attribute and index access on a field (str.format resolves them on the wrapped field)
+             'call {fn.__name__} first', 'call {fn.__name__:name} first ({fn.__qualname__!r})', '{k.real} and {n[0]}', '{n[0]:name}']
 FIELD_VALUES = ['abc', 'x y', '__dunder__', '<tag>', 7, 0, '']
 SPECS = ['exception', 'filename', 'frame', 'traceback', 'inputs', 'line', 'name', 'output', 'python_code',
          'python_expression', 'python_value']
@@ -148,11 +150,15 @@ def force_restore():
 def render_reference(template, fields, formatter):
     """Independent rendering of a template: {f} -> str(value); {f:spec} -> formatter.spec(value); {f!r} -> repr."""
     out = []
+    import _string
     for literal, name, spec, conv in string.Formatter().parse(template):
         out.append(literal)
         if name is None:
             continue
-        value = fields[name]   # KeyError when the field is missing: the message "raises"
+        first, rest = _string.formatter_field_name_split(name)
+        value = fields[first]   # KeyError when the field is missing: the message "raises"
+        for is_attribute, key in rest:
+            value = getattr(value, key) if is_attribute else value[key]     # ... or when the field has no such attribute / item
         if conv == 'r':
             out.append(repr(value))
         elif conv == 's' or not spec:
@@ -185,7 +191,7 @@ class Stepper:
             'outcome': st.sampled_from(['true', 'true', 'false', 'truthy', 'falsy', 'raise']),
             'msg': st.sampled_from(['explicit', 'template', 'template', 'class', 'none']),
             'template': st.sampled_from(TEMPLATES),
-            'fields': st.fixed_dictionaries({}, optional={'k': st.sampled_from(FIELD_VALUES), 'n': st.sampled_from(FIELD_VALUES)}),
+            'fields': st.fixed_dictionaries({}, optional={'k': st.sampled_from(FIELD_VALUES), 'n': st.sampled_from(FIELD_VALUES), 'fn': st.sampled_from(['@len', '@sorted'])}),
             'as_kwargs': st.booleans(),
             'delay': st.sampled_from([False, False, False, True]),
             'parent': st.sampled_from([None, None, 1, 'g', 'group']),
@@ -302,7 +308,7 @@ class Stepper:
         cls = self.s['classes'][op['cls']]
         name = op['cls']
         args, kw = [], {}
-        fields = dict(op['fields'])
+        fields = {key: ({'@len': len, '@sorted': sorted}[v] if isinstance(v, str) and v.startswith('@') else v) for key, v in op['fields'].items()}
         gen = name in GEN
         if gen:
             args.append(op['outcome'])
@@ -355,7 +361,7 @@ class Stepper:
     def given_fields(self, op, kw):
         """What the caller supplied (copied before the call) plus the class's constant fields as they were defined."""
         given = {} if op.get('shared') else dict(kw.get('fields') or {})      # the shared dict is empty as far as the caller is concerned
-        for key in ('k', 'n'):
+        for key in ('k', 'n', 'fn'):
             if key in kw:
                 given[key] = kw[key]
         const = self.s['constant_fields'].get(op['cls'])
